@@ -15,7 +15,7 @@ import time
 from . import core
 
 SHARDS = 8
-N_PROGRAMS = {"quick": 48, "thorough": 320}
+N_PROGRAMS = {"quick": 48, "thorough": 192}
 MAX_SKIP_FRACTION = 0.08
 
 
